@@ -3,7 +3,6 @@
 package main
 
 import (
-	"time"
 	"encoding/json"
 	"flag"
 	"fmt"
@@ -11,6 +10,7 @@ import (
 	"runtime"
 	"runtime/debug"
 	"strings"
+	"time"
 
 	"verifharness/hk"
 	"verifharness/mon"
@@ -55,7 +55,9 @@ func main() {
 		debug.SetGCPercent(1)
 		go func() {
 			for {
-				runtime.GC()
+				if !props.GCStormPaused.Load() {
+					runtime.GC()
+				}
 				time.Sleep(150 * time.Microsecond)
 			}
 		}()
